@@ -5,7 +5,8 @@
 //
 // ops (trie):  new | put <hexkey> <hexval|-> | get <hexkey> | commit | reopen | prove <hexkey>
 // ops (state): sdb new | sdb nonce a n | sdb balance a n | sdb code a hex | sdb state a k v |
-//              sdb create a | sdb suicide a | sdb snapshot | sdb revert id | sdb dump
+//
+//	sdb create a | sdb suicide a | sdb snapshot | sdb revert id | sdb dump
 package main
 
 import (
@@ -28,11 +29,11 @@ import (
 )
 
 type impl struct {
-	db     *trie.Database
-	t      *trie.Trie
-	sdb    *state.StateDB
-	addrs  map[int]bool
-	keys   map[int]map[int]bool
+	db    *trie.Database
+	t     *trie.Trie
+	sdb   *state.StateDB
+	addrs map[int]bool
+	keys  map[int]map[int]bool
 }
 
 func unhex(s string) []byte {
